@@ -368,6 +368,8 @@ func parsePossibilityNumber(input *input, version *VersionRelation) error {
 			return errors.New("Oh no. Reached EOF before Number finished")
 		case ',', '|': /* the relation ended, the version didn't */
 			return errors.New("Oh no. Relation ended before Number finished")
+		case '(', '[', '<': /* another clause began, this one didn't end */
+			return errors.New("Oh no. Another clause opened before Number finished")
 		case ')':
 			return nil
 		case ' ', '\t', '\r', '\n':
@@ -429,6 +431,8 @@ func parsePossibilityArch(input *input, possi *Possibility) error {
 			return errors.New("Oh no. Reached EOF before Arch list finished")
 		case ',', '|': /* the relation ended, the list didn't */
 			return errors.New("Oh no. Relation ended before Arch list finished")
+		case '(', '[', '<', ')', '>': /* another clause began (or ended), this one didn't end */
+			return errors.New("Oh no. Another clause opened before Arch list finished")
 		case '!':
 			return errors.New("You can only negate whole blocks :(")
 		case ']', ' ', '\t', '\r', '\n': /* Let our parent deal with these */
@@ -485,6 +489,8 @@ func parsePossibilityStage(input *input, stageSet *StageSet) error {
 			return errors.New("Oh no. Reached EOF before Stage finished")
 		case ',', '|': /* the relation ended, the stage set didn't */
 			return errors.New("Oh no. Relation ended before StageSet finished")
+		case '(', '[', '<', ')', ']': /* another clause began (or ended), this one didn't end */
+			return errors.New("Oh no. Another clause opened before StageSet finished")
 		case '!':
 			input.Next()
 			if stage.Not {
